@@ -3,6 +3,7 @@ from checks.common import Ctx
 from sa.report import Check
 from sa.rules import pipeline as P
 from sa.rules import ranges as RG
+from sa.rules import traversal as T
 from sa.rules import validators as V
 
 
@@ -17,7 +18,8 @@ def main(tier):
             "against are admitted by the validating sets and every admitted byte order has a runtime ByteOrderer "
             "(R-ATTRVALUES); every constraint / attribute / type validator function is reachable from a compiler "
             "pass, with per-module floors (R-VALIDATORS); the reserved-word check covers every named node kind "
-            "(R-NAMEDKINDS); the documented boundary predicates — maximum_bits in 1..64, `bits` types at most 64 bits (and the "
+            "(R-NAMEDKINDS); scoped traversal parameters such as the $default attribute table are never mutated in place by the "
+            "actions that override them, so a default set in one scope cannot leak into siblings (R-INCIDENTAL-PURE); the documented boundary predicates — maximum_bits in 1..64, `bits` types at most 64 bits (and the "
             "runtime BitBlock limit equal to it), enum fields of 1..maximum_bits bits, enum values within the exact range of "
             "a signed/unsigned integer of maximum_bits bits for every width — are folded from the source and compared with "
             "the documented intervals (R-BOUNDARY), as are the value ranges of UInt/Int/Bcd (R-INTRANGE). "
@@ -27,6 +29,7 @@ def main(tier):
     chk.run("R-ATTRVALUES", V.attrvalues, r, floor=4)
     chk.run("R-VALIDATORS", P.validators, r, floor=40)
     chk.run("R-NAMEDKINDS", P.namedkinds, r, s, cx.sites, floor=10)
+    chk.run("R-INCIDENTAL-PURE", T.incidental_pure, r, s, cx.sites, floor=8)
     chk.run("R-BOUNDARY", RG.boundary, r, floor=130)
     chk.run("R-INTRANGE", RG.intrange, r, floor=190)
     return chk.finish()
